@@ -9,7 +9,7 @@ m.setdefault('property', prop)
 m['confirmed'] = {'how': 'tools/confirm_mutant.sh in a scratch git worktree of /repo: patch applies, go build ./... and the pinned suite pass '
                          '(only the baseline ipblockstest_4 failures), the demonstration fails with the change and passes without it',
                   'suite_passed': True, 'demo_clean': 'pass', 'demo_mutant': 'fail'}
-m['verified'] = {'repo_head': head, 'command': 'git -C /repo apply seeded/%s/patch.diff && python3 checks/check.py %s quick ; git -C /repo checkout -- .' % (sid, prop),
+m['verified'] = {'repo_head': head, 'command': 'tools/run_seeded.sh %s   (scratch worktree of /repo + patch; VERIF_REPO=<worktree> python3 checks/check.py %s quick)' % (sid, prop),
                  'check': prop, 'exit_code': None if rc == '' else int(rc), 'caught': (rc not in ('', '0')),
                  'first_replay_kind': os.path.basename(first).rsplit('-', 1)[0] if first else None,
                  'date': datetime.datetime.utcnow().strftime('%Y-%m-%dT%H:%MZ')}
